@@ -167,7 +167,7 @@ def run(tier, seed):
             job["first"] = std_text(rng, plat) if (plat == "ios" and rng.random() < 0.5) else ace_text(rng, plat, vm)
             job["origin"] = "reassigned-line"
         jobs.append(job)
-    hits, vstats, n_events, samples = core.exec_validate(exec_job, jobs, "Trace_C01")
+    hits, vstats, n_events, samples = core.exec_validate(exec_job, jobs, "Trace_C01", batch=4000)
     out = []
     for v, j, evs in hits:
         if v["clause"].startswith("C06."):
